@@ -37,3 +37,33 @@ func vnewdb() *Database {
 }
 
 func vkey(cols ...string) schema.Index { return schema.Index{Mode: 'k', Columns: cols} }
+
+// vcommit completes ut the way the checker goroutine does (check, then publish the state):
+// false if the transaction had been aborted. merge=true also merges its index layers at once.
+func vcommit(db *Database, ut *UpdateTran, merge bool) bool {
+	tables := db.ck.(*Check).commit(ut)
+	if tables == nil {
+		return false
+	}
+	ut.commit()
+	if merge {
+		ml := &mergeList{}
+		ml.add(tables)
+		db.Merge(mergeSingle, ml)
+	}
+	return true
+}
+
+// vscan returns the keys and offsets of a full forward scan of an index
+func vscan(t *ReadTran, table string, i int) (keys []string, offs []uint64) {
+	it := t.IndexIter(table, i)
+	for it.Next(t); !it.Eof(); it.Next(t) {
+		k, o := it.Cur()
+		keys = append(keys, k)
+		offs = append(offs, o)
+		if len(keys) > 16 {
+			panic("vscan: runaway iteration")
+		}
+	}
+	return
+}
